@@ -13,8 +13,8 @@ pub struct C17;
 
 /// A document built around ONE construct that brings an external crate into the output (so
 /// that the corresponding uses_* flag has to be set by that construct alone).
-fn single_construct_doc(g: &mut G) -> Value {
-    let constructs: Vec<Value> = vec![
+fn constructs() -> Vec<Value> {
+    vec![
         json!({"type": "string", "format": "uuid"}),
         json!({"type": "string", "format": "date-time"}),
         json!({"type": "string", "format": "date"}),
@@ -33,10 +33,20 @@ fn single_construct_doc(g: &mut G) -> Value {
         json!({"type": "object", "additionalProperties": {"type": "string", "format": "date-time"}}),
         json!({"type": "integer", "default": 5}),
         json!({"type": "array", "items": {"type": "string"}, "default": ["a", "b"]}),
-    ];
-    let c = g.pick(&constructs).clone();
+    ]
+}
+
+fn single_construct_doc(g: &mut G) -> Value {
+    let cs = constructs();
+    let k = g.below(cs.len());
     let required = g.chance(1, 2);
-    let holder = match g.below(3) {
+    let shape = g.below(3);
+    construct_doc(&cs[k], required, shape)
+}
+
+fn construct_doc(c: &Value, required: bool, shape: usize) -> Value {
+    let c = c.clone();
+    let holder = match shape {
         0 => json!({"type": "object", "properties": {"member": c, "plain": {"type": "integer"}}, "required": if required { vec!["member"] } else { vec![] }}),
         1 => json!({"type": "object", "properties": {"plain": {"type": "integer"}}, "required": ["plain", "undeclared_member"]}),
         _ => json!({"oneOf": [{"type": "object", "properties": {"v": c}, "required": ["v"], "additionalProperties": false}, {"type": "string", "enum": ["unit"]}]}),
@@ -112,7 +122,17 @@ impl Property for C17 {
         Some(gen_c17_case(g))
     }
     fn generate(&self, tier: Tier, seed: u64) -> Vec<Value> {
-        gen::draw(seed, "C17", tier.pick(350, 12000), gen_c17_case)
+        let mut v = gen::draw(seed, "C17", tier.pick(350, 12000), gen_c17_case);
+        // every single-construct document once (each must set its uses_* flag on its own)
+        for c in constructs() {
+            for shape in [0usize, 2] {
+                for required in [false, true] {
+                    let case = Case { settings: Settings::default(), history: vec![Step::Root { doc: construct_doc(&c, required, shape) }], ..Default::default() };
+                    v.push(gen::to_value(&case));
+                }
+            }
+        }
+        v
     }
     fn prepare(&self, case_v: &Value) -> Unit {
         let case = match parse_case(case_v) {
